@@ -261,7 +261,7 @@ def snapshot(dc, names, edit_mode):
     strict = {"datasets_sorted": sorted(dn), "groups": gl, "foreign": foreign, "edit": edit,
               "mode": MODE_NAMES.get(edit_mode.mode, repr(edit_mode.mode))}
     cosmetic = {"dataset_order": dn, "labels": [g.label for g in groups], "styles": [style_tuple(g.style) for g in groups],
-                "group_ids": [id(g) for g in groups]}
+                "group_objs": list(groups)}     # strong references: identity is compared through these, never through id()
     return strict, cosmetic
 
 
